@@ -1119,5 +1119,138 @@ theorem closest_min [LinearOrder F] (lt : F → F → Bool) (hlt : ∀ a b, lt a
     · exact this.1
     · exact this.2 e' he'
 
+/-! ### distance update of `arithmetic_cluster` (values) -/
+
+theorem keyOf_snd_lt (i c new : Nat) (hi : i < new) (hc : c < new) : (keyOf i c).2 ≠ new := by
+  unfold keyOf; split <;> simp <;> omega
+
+/-- values written by the inner loop of `arithmetic_cluster`: every other key keeps its value and
+the key `(idx, new)` of a live index gets `comb` of its two old distances -/
+theorem arithRow_vals (comb : F → F → F) (a b new : Nat) (ha : a < new) (hb : b < new)
+    (rest : List (Option (List Nat))) (idx : Nat) (dm dm' : DM F)
+    (hlen : idx + rest.length ≤ new)
+    (h : arithRow comb a b new rest idx dm = some dm') :
+    (∀ q : Nat × Nat, (q.2 ≠ new ∨ q.1 < idx) → dmGet dm' q = dmGet dm q) ∧
+    (∀ p, isLive rest p = true → idx + p ≠ a → idx + p ≠ b →
+      ∃ v1 v2, dmGet dm (keyOf (idx + p) a) = some v1 ∧ dmGet dm (keyOf (idx + p) b) = some v2 ∧
+        dmGet dm' (idx + p, new) = some (comb v1 v2)) := by
+  induction rest generalizing idx dm with
+  | nil =>
+    simp only [arithRow, Option.some.injEq] at h
+    subst h
+    exact ⟨fun _ _ => rfl, fun p hp => by simp [isLive_nil] at hp⟩
+  | cons s r ih =>
+    have hlen' : idx + 1 + r.length ≤ new := by simp at hlen; omega
+    have tailcase : ∀ dm1 : DM F, arithRow comb a b new r (idx + 1) dm1 = some dm' →
+        (∀ q : Nat × Nat, (q.2 ≠ new ∨ q.1 < idx + 1) → dmGet dm1 q = dmGet dm q ∨
+          (q = (idx, new) ∧ s.isSome ∧ idx ≠ a ∧ idx ≠ b)) →
+        (∀ q : Nat × Nat, (q.2 ≠ new ∨ q.1 < idx) → dmGet dm' q = dmGet dm q) ∧
+        (∀ p, isLive (s :: r) (p + 1) = true → idx + (p + 1) ≠ a → idx + (p + 1) ≠ b →
+          ∃ v1 v2, dmGet dm (keyOf (idx + (p + 1)) a) = some v1 ∧
+            dmGet dm (keyOf (idx + (p + 1)) b) = some v2 ∧
+            dmGet dm' (idx + (p + 1), new) = some (comb v1 v2)) := by
+      intro dm1 h1 hsame
+      obtain ⟨i1, i2⟩ := ih (idx + 1) dm1 hlen' h1
+      constructor
+      · intro q hq
+        have hq' : q.2 ≠ new ∨ q.1 < idx + 1 := by omega
+        rw [i1 q hq']
+        rcases hsame q hq' with h | ⟨rfl, _⟩
+        · exact h
+        · simp at hq
+      · intro p hp hpa hpb
+        rw [isLive_cons_succ] at hp
+        have e : idx + (p + 1) = idx + 1 + p := by omega
+        rw [e] at hpa hpb ⊢
+        obtain ⟨v1, v2, g1, g2, g3⟩ := i2 p hp hpa hpb
+        have hp' := isLive_lt hp
+        have k1 : (keyOf (idx + 1 + p) a).2 ≠ new := keyOf_snd_lt _ _ _ (by omega) ha
+        have k2 : (keyOf (idx + 1 + p) b).2 ≠ new := keyOf_snd_lt _ _ _ (by omega) hb
+        refine ⟨v1, v2, ?_, ?_, g3⟩
+        · rcases hsame _ (Or.inl k1) with h | ⟨h, _⟩
+          · rw [← h]; exact g1
+          · rw [h] at k1; simp at k1
+        · rcases hsame _ (Or.inl k2) with h | ⟨h, _⟩
+          · rw [← h]; exact g2
+          · rw [h] at k2; simp at k2
+    have headfree : ∀ P : Nat → Prop, (∀ p, isLive (s :: r) (p + 1) = true → idx + (p + 1) ≠ a →
+        idx + (p + 1) ≠ b → P (p + 1)) →
+        (isLive (s :: r) 0 = true → idx + 0 ≠ a → idx + 0 ≠ b → P 0) →
+        ∀ p, isLive (s :: r) p = true → idx + p ≠ a → idx + p ≠ b → P p := by
+      intro P h1 h0 p
+      cases p with
+      | zero => exact h0
+      | succ p => exact h1 p
+    by_cases hab : idx = a ∨ idx = b
+    · simp only [arithRow, hab, if_true] at h
+      obtain ⟨t1, t2⟩ := tailcase dm h (fun q _ => Or.inl rfl)
+      refine ⟨t1, headfree _ t2 ?_⟩
+      intro _ h2 h3; omega
+    · cases s with
+      | none =>
+        simp only [arithRow, hab, if_false] at h
+        obtain ⟨t1, t2⟩ := tailcase dm h (fun q _ => Or.inl rfl)
+        refine ⟨t1, headfree _ t2 ?_⟩
+        intro h1; rw [isLive_cons_zero] at h1; cases h1
+      | some x =>
+        simp only [arithRow, hab, if_false] at h
+        split at h
+        · rename_i v1 v2 hv1 hv2
+          obtain ⟨t1, t2⟩ := tailcase _ h (by
+            intro q _
+            rw [dmGet_dmInsert]
+            by_cases hq : (idx, new) = q
+            · right; exact ⟨hq.symm, rfl, by omega, by omega⟩
+            · left; simp [hq])
+          refine ⟨t1, headfree _ t2 ?_⟩
+          intro _ _ _
+          obtain ⟨i1, _⟩ := ih (idx + 1) _ hlen' h
+          refine ⟨v1, v2, by simpa using hv1, by simpa using hv2, ?_⟩
+          rw [Nat.add_zero, i1 (idx, new) (Or.inr (by simp)), dmGet_dmInsert]
+          simp
+        · cases h
+
+theorem arithStep_update (lt : F → F → Bool) (comb : F → F → F) (s s' : State F)
+    (h : arithStep lt comb s = some s') :
+    ∃ a b d, closest lt s.dm = some ((a, b), d) ∧
+      (∀ i, isLive s.sets i = true → i ≠ a → i ≠ b →
+        ∃ v1 v2, dmGet s.dm (keyOf i a) = some v1 ∧ dmGet s.dm (keyOf i b) = some v2 ∧
+          dmGet s'.dm (i, s.sets.length) = some (comb v1 v2)) ∧
+      (∀ q : Nat × Nat, q.1 ≠ a → q.1 ≠ b → q.2 ≠ a → q.2 ≠ b → q.2 ≠ s.sets.length →
+        dmGet s'.dm q = dmGet s.dm q) := by
+  unfold arithStep at h
+  split at h
+  · cases h
+  · rename_i e he
+    split at h
+    · cases h
+    · rename_i c hc
+      split at h
+      · rename_i hlt
+        split at h
+        · cases h
+        · rename_i dm1 hr
+          cases h
+          obtain ⟨⟨a, b⟩, d⟩ := e
+          simp only at hlt hr ⊢
+          obtain ⟨v1, v2⟩ := arithRow_vals comb a b s.sets.length hlt.1 hlt.2
+            (takeTwo s.sets a b) 0 s.dm dm1 (by simp [length_takeTwo]) hr
+          refine ⟨a, b, d, he, ?_, ?_⟩
+          · intro i hi hia hib
+            have hil := isLive_lt hi
+            obtain ⟨w1, w2, g1, g2, g3⟩ := v2 i (by rw [isLive_takeTwo]; simp [hi, hia, hib])
+              (by omega) (by omega)
+            simp only [Nat.zero_add] at g1 g2 g3
+            refine ⟨w1, w2, g1, g2, ?_⟩
+            rw [dmGet_dmRetain]
+            have : (i, s.sets.length).1 ≠ a ∧ (i, s.sets.length).1 ≠ b ∧
+                (i, s.sets.length).2 ≠ a ∧ (i, s.sets.length).2 ≠ b := by
+              simp only; omega
+            rw [if_pos this]; exact g3
+          · intro q h1 h2 h3 h4 h5
+            rw [dmGet_dmRetain, if_pos ⟨h1, h2, h3, h4⟩]
+            exact v1 q (Or.inl h5)
+      · cases h
+
 end Linkage
 end Hpo
